@@ -41,6 +41,8 @@ func RunAnalysis(as AnalysisSpec, progs []*Program, cs *Contracts, funcs []*Func
 	switch as.Name {
 	case "nonblocking":
 		return analyseNonblocking(as, funcs, work, timeout)
+	case "no-block-under-lock":
+		return analyseBlocking(as, funcs, work, timeout, true)
 	}
 	if f, ok := analyses[as.Name]; ok {
 		return f(as, progs, cs, funcs, work, timeout)
@@ -61,6 +63,12 @@ var analyses = map[string]analysisFn{}
 // args["allow"]: comma list of "kind:what" events that are permitted (documented back-pressure).
 // args["blocking_externals"]: comma list of external callee keys that block.
 func analyseNonblocking(as AnalysisSpec, funcs []*FuncResult, work string, timeout time.Duration) *AnalysisResult {
+	return analyseBlocking(as, funcs, work, timeout, false)
+}
+
+// analyseBlocking with underLock: only events that happen while a lock of the function is held count
+// (kind no-block-under-lock); callees invoked under the lock must be entirely nonblocking.
+func analyseBlocking(as AnalysisSpec, funcs []*FuncResult, work string, timeout time.Duration, underLock bool) *AnalysisResult {
 	ar := &AnalysisResult{Name: as.Name}
 	allow := map[string]bool{}
 	for _, a := range strings.Split(as.Args["allow"], ",") {
@@ -82,9 +90,9 @@ func analyseNonblocking(as AnalysisSpec, funcs []*FuncResult, work string, timeo
 		details []string
 	}
 	memo := map[string]*verdict{}
-	var eval func(key string, stack []string) *verdict
-	eval = func(key string, stack []string) *verdict {
-		if v, ok := memo[key]; ok {
+	var eval func(key string, stack []string, top bool) *verdict
+	eval = func(key string, stack []string, top bool) *verdict {
+		if v, ok := memo[key]; ok && !(top && underLock) {
 			return v
 		}
 		for _, s := range stack {
@@ -110,6 +118,9 @@ func analyseNonblocking(as AnalysisSpec, funcs []*FuncResult, work string, timeo
 				desc := ev.Kind + ":" + ev.What
 				site := ev.Pos + " " + desc
 				if allow[desc] {
+					continue
+				}
+				if top && underLock && len(ev.Held) == 0 {
 					continue
 				}
 				switch ev.Kind {
@@ -149,7 +160,7 @@ func analyseNonblocking(as AnalysisSpec, funcs []*FuncResult, work string, timeo
 							fail("call of a function value at " + ev.Pos)
 						}
 					case findFunc(funcs, ev.What) != nil:
-						cv := eval(ev.What, append(stack, key))
+						cv := eval(ev.What, append(stack, key), false)
 						v.ms += cv.ms
 						if !cv.ok {
 							fail("calls " + ev.What + " at " + ev.Pos + " which may block: " + cv.why)
@@ -161,7 +172,7 @@ func analyseNonblocking(as AnalysisSpec, funcs []*FuncResult, work string, timeo
 						for _, f := range funcs {
 							if strings.HasSuffix(f.Key, m) && f.Key != ev.What && strings.Count(f.Key, ".") == 2 {
 								found = true
-								cv := eval(f.Key, append(stack, key))
+								cv := eval(f.Key, append(stack, key), false)
 								v.ms += cv.ms
 								if !cv.ok {
 									fail("calls " + ev.What + " (implementation " + f.Key + ") at " + ev.Pos + " which may block: " + cv.why)
@@ -175,12 +186,18 @@ func analyseNonblocking(as AnalysisSpec, funcs []*FuncResult, work string, timeo
 				}
 			}
 		}
-		memo[key] = v
+		if !(top && underLock) {
+			memo[key] = v
+		}
 		return v
 	}
 	for _, key := range as.Functions {
-		v := eval(key, nil)
-		o := &OblResult{Name: key + "/nonblocking", Kind: "nonblocking", Func: key, Desc: "no potentially blocking instruction on any path, bottom-up through calls", Result: "discharged", Ms: v.ms}
+		v := eval(key, nil, true)
+		kind, desc := "nonblocking", "no potentially blocking instruction on any path, bottom-up through calls"
+		if underLock {
+			kind, desc = "no-block-under-lock", "no potentially blocking instruction while a lock is held"
+		}
+		o := &OblResult{Name: key + "/" + kind, Kind: kind, Func: key, Desc: desc, Result: "discharged", Ms: v.ms}
 		var bs []string
 		for b := range v.backend {
 			bs = append(bs, b)
